@@ -1,1 +1,28 @@
-From ACN Require Import Model.Current Model.Network.
+(* Props/C12_findings.v — compiled only while the defect is present in the tree under test
+   (harness/c12.py: Current defines no __iadd__/__isub__; known_findings.json, sig
+   "inplace-sum-cut-to-left-index").
+
+   `a += b` / `a -= b` on Currents run pandas' NDFrame._inplace_method: the result of the binary operator is
+   reindexed like the LEFT operand, so every station that only b mentions is dropped.  Model: mode
+   InplaceReindex of Model/Current.v (confirmed by the correspondence run on every execution).
+
+   Full-strength statement that fails today:
+     forall e s, qcoeff (qdenote InplaceReindex e) s == qceval e s. *)
+From Coq Require Import List QArith.
+From ACN Require Import Base.Num Model.Current Proofs.Current.
+Import ListNotations.
+Open Scope Q_scope.
+
+Theorem C12_algebra_inplace_refuted :
+  exists (e : cexpr Q) (s : station), ~ qcoeff (qdenote InplaceReindex e) s == qceval e s.
+Proof. exact inplace_refuted. Qed.
+Print Assumptions C12_algebra_inplace_refuted.
+
+(* the witness: t = Current("s0"); t += Current({"s0": 1, "s1": 2}) — station s1 should get 2, gets 0;
+   with in-place operators that rebind (the repair) it gets 2 *)
+Theorem C12_algebra_inplace_witness :
+  let e := EIadd (EStr 0%nat) (EDict [(0%nat, 1); (1%nat, 2)]) in
+  qcoeff (qdenote InplaceReindex e) 1%nat == 0 /\ qceval e 1%nat == 2 /\
+  qcoeff (qdenote InplaceRebind e) 1%nat == 2.
+Proof. exact inplace_witness_values. Qed.
+Print Assumptions C12_algebra_inplace_witness.
